@@ -58,6 +58,36 @@ def _par_worker(span):
             "kf_hit": sub.kf.hit}
 
 
+def _par_file_worker(span):
+    parent, fn, (path, keep, batch) = _PAR
+    sub = Ctx(parent.prop, parent.tier, parent.seed)
+    decoded = 0
+    recs = []
+    with open(path, "rb") as f:
+        a, b = span
+        if a > 0:                      # a line belongs to the range in which it starts
+            f.seek(a - 1)
+            if f.read(1) != b"\n":
+                f.readline()
+        while f.tell() < b:
+            line = f.readline()
+            if not line:
+                break
+            if line.startswith(b'"{'):
+                rec = json.loads(json.loads(line.decode("utf-8", "replace")))
+                decoded += 1
+                if keep is None or keep(rec):
+                    recs.append(rec)
+                    if len(recs) >= batch:
+                        fn(sub, recs)
+                        recs = []
+    if recs:
+        fn(sub, recs)
+    return {"decoded": decoded, "violations": sub.violations[:200] + [(k, None) for k, _ in sub.violations[200:]],
+            "traces": sub.traces, "evaluations": sub.evaluations, "nontrivial": sub.nontrivial, "samples": sub.samples,
+            "notes": sub.notes, "kf_hit": sub.kf.hit}
+
+
 class Ctx:
     def __init__(self, prop, tier, seed):
         self.prop = prop
@@ -117,6 +147,24 @@ class Ctx:
             for part in pool.imap_unordered(_par_worker, spans):
                 self.merge(part)
         _PAR = None
+
+    def parallel_file(self, path, fn, keep=None, nproc=14, batch=5000):
+        """like parallel(), for an export too large to hold in memory: TLC's raw output file is cut into byte
+        ranges at line boundaries; each forked worker decodes the exported lines of its range and feeds them to
+        fn(ctx, records) in batches.  Returns the number of records handled (checked against TLC's count by the caller)."""
+        import multiprocessing as mp
+        size = os.path.getsize(path)
+        step = max(1 << 20, size // (nproc * 8))
+        spans = [(a, min(a + step, size)) for a in range(0, size, step)]
+        global _PAR
+        _PAR = (self, fn, (path, keep, batch))
+        total = 0
+        with mp.get_context("fork").Pool(nproc) as pool:
+            for part in pool.imap_unordered(_par_file_worker, spans):
+                total += part.pop("decoded")
+                self.merge(part)
+        _PAR = None
+        return total
 
     def merge(self, part):
         for key, detail in part["violations"]:
